@@ -17,6 +17,11 @@ import (
 
 // noteCrash records the crash monitors for one operation outcome (used by every driver).
 func noteCrash(res *Result, spec *RunSpec, i int, op OpSpec, o Outcome) {
+	if strings.HasPrefix(o.Panic, "simrt:") {
+		// the kernel's own limits (too many tasks, ...): harness trouble, never a verdict on the code under test
+		res.Err = "kernel limit: " + clip(o.Panic, 200)
+		return
+	}
 	if o.Panic != "" {
 		site := o.Panic
 		if k := strings.LastIndex(site, " @"); k >= 0 {
